@@ -19,6 +19,7 @@ type Period struct {
 	VaryLat   bool   `json:"vary_lat"`
 	Periods   int    `json:"periods"`      // horizon in periods
 	CloseAtMs int    `json:"close_at_ms"`  // extra offset of the Close inside the cycle
+	CloseAfterSteps int `json:"close_after_steps"` // > 0: Close is injected that many scheduler steps later instead (any point INSIDE the zero-time processing of a cycle)
 	Writes    int    `json:"writes"`       // some traffic while relisting
 	Sim       SimCfg `json:"sim"`
 }
@@ -44,6 +45,9 @@ func genC13(g GenCtx) interface{} {
 	sc.VaryLat = rng.Intn(3) == 0
 	sc.Periods = 3 + rng.Intn(18)
 	sc.CloseAtMs = rng.Intn(2*sc.PeriodMs + 1)
+	if rng.Intn(2) == 0 {
+		sc.CloseAfterSteps = 1 + rng.Intn(400)
+	}
 	sc.Writes = rng.Intn(10)
 	// consumption delay: the controller loop / lister / ticker starved by a drawn factor
 	sc.Sim = SimCfg{Strategy: randStrategy(rng, []string{"Create>c.run", "newLister>l.run", "newTicker>t.run", "_lister.list>func", "newCache>c.run"}),
@@ -99,6 +103,32 @@ func runC13(sci interface{}) {
 	}
 	checkListDiscipline(srv, per)
 	// and it still shuts down promptly, wherever in the cycle
+	if sc.CloseAfterSteps > 0 {
+		// shutdown-point injection by step count: lands between any two hand-offs
+		// of a cycle (e.g. while a list result is waiting to be consumed)
+		fired := false
+		closed := make(chan struct{})
+		detsim.AtStep(detsim.Steps()+sc.CloseAfterSteps, "c13-close", func() {
+			fired = true
+			h.Ctrl.Close()
+			close(closed)
+		})
+		limit := detsim.Elapsed() + 4*(per+lat) + time.Second
+		for !fired && detsim.Elapsed() < limit {
+			time.Sleep(per/7 + time.Microsecond)
+		}
+		if fired {
+			if !world.WaitClosed(closed, time.Millisecond) {
+				detsim.Fail("hang:Close", "Controller.Close(), issued at an arbitrary point of the list/tick cycle, did not return\n%s\n%s", dumpLive(), srv.Summary())
+			}
+			if !world.WaitClosed(h.Ctrl.Done(), time.Millisecond) {
+				detsim.Fail("hang:Done", "Controller.Done() did not close after Close() returned")
+			}
+			detsim.Settle()
+			checkNoLeak()
+			return
+		}
+	}
 	time.Sleep(ms(sc.CloseAtMs))
 	checkListDiscipline(srv, per)
 	closeAndCheckClean(h, time.Millisecond)
